@@ -41,7 +41,12 @@ LEVEL_NOTE = (
     "tracker may have it replaced by a state update); init: never a second read; expire: every later read >= interval after the last state "
     "update/read of that value, and none missing for interval+SLACK; every: later reads interval..interval+SLACK apart; no read put on the "
     "queue while the state is not CONNECTED, for an unregistered / sync_state=False value, or after stop(); unanswered reads younger than "
-    "the 2 s reader timeout, counted within one connection period, never exceed two. Only decodable state telegrams are generated."
+    "the 2 s reader timeout, counted within one connection period, never exceed two. Only decodable state telegrams are generated. "
+    "Two races of the shielded read get mechanism strings of their own (so that nothing else hides behind them): a read put on the queue at "
+    "most one loop iteration after the loss/unregistration that ended the period, once (read-issued-*-one-loop-turn-after-*), and a third "
+    "read while the read of a tracker cancelled by unregistration / a state update is still waiting and the still-running trackers alone "
+    "respect the limit (third-read-started-while-read-of-cancelled-tracker-still-waiting-after-*). A read and a state update in the same "
+    "instant are order-ambiguous for the 'expire' lower bound and not judged; reads put during XKNX.stop() while still CONNECTED are recorded."
 )
 SHARDS = {"quick": 1, "thorough": 16}
 TIMEOUT = {"quick": 300, "thorough": 3000}
